@@ -131,6 +131,7 @@ inductive COp
   | detect            -- `liveFormat, err = dateparse.ParseFormat(strTime)`
   | store             -- `format.Store(liveFormat)`
   | parse             -- `val, err := time.ParseInLocation(liveFormat, strTime, tz)`
+  | touch (i : Int)   -- `context.GetMatch(i)` as a statement (the answer is dropped)
   | other (s : String)
   deriving Repr, DecidableEq
 
@@ -140,6 +141,7 @@ inductive CCond
   | errNonNil         -- `err != nil`
   | strNeEmptyTime    -- `strTime != emptyTime`
   | inStatic          -- `InStaticAnalysis(context)`
+  | notConstTime      -- `!constTime`
   | other (s : String)
   deriving Repr, DecidableEq
 
@@ -160,21 +162,23 @@ structure CVars (L : Type) where
   live : Option L := none        -- `liveFormat` (`none` = "")
   err : Bool := false
   val : Option Bytes := none     -- `f(val)` when the last parse succeeded
+  touched : List Int := []       -- the indices the context was touched with, in order
   st : TimeSt L
 
 inductive CRes (L : Type)
-  | ret (v : Bytes) (st : TimeSt L)
+  | ret (v : Bytes) (st : TimeSt L) (touched : List Int)
   | fall (vars : CVars L)
   | stuck
 
 def CVars.cell {L : Type} (v : CVars L) : Option L := if v.useStatic then v.st.static else v.st.real
 
-def evalCond {L : Type} (emptyTime : Bytes) (static : Bool) (v : CVars L) : CCond → Option Bool
+def evalCond {L : Type} (emptyTime : Bytes) (constTime static : Bool) (v : CVars L) : CCond → Option Bool
   | .strEmpty => some (v.str = [])
   | .liveEmpty => some v.live.isNone
   | .errNonNil => some v.err
   | .strNeEmptyTime => some (v.str ≠ emptyTime)
   | .inStatic => some static
+  | .notConstTime => some (!constTime)
   | .other _ => none
 
 def execOp {L : Type} (lib : TimeLib L) (date : Bytes) (v : CVars L) : COp → Option (CVars L)
@@ -198,43 +202,45 @@ def execOp {L : Type} (lib : TimeLib L) (date : Bytes) (v : CVars L) : COp → O
       | some r => some { v with val := some r, err := false }
       | none => some { v with val := none, err := true }
     | none => none      -- parsing with the layout "": not given a meaning
+  | .touch i => some { v with touched := v.touched ++ [i] }
   | .other _ => none
 
-/-- One call of the closure: `date` is what `dateStage(context)` answers, `static` what `InStaticAnalysis(context)` says. -/
-def execProg {L : Type} (lib : TimeLib L) (emptyTime : Bytes) (static : Bool) (date : Bytes) : CProg → CVars L → CRes L
+/-- One call of the closure: `date` is what `dateStage(context)` answers, `static` what `InStaticAnalysis(context)`
+    says, `constTime` the second result of `EvalStaticStage(dateStage)` when the stage was built. -/
+def execProg {L : Type} (lib : TimeLib L) (emptyTime : Bytes) (constTime static : Bool) (date : Bytes) : CProg → CVars L → CRes L
   | .nil, v => .fall v
   | .op o next, v =>
     match execOp lib date v o with
-    | some v' => execProg lib emptyTime static date next v'
+    | some v' => execProg lib emptyTime constTime static date next v'
     | none => .stuck
   | .ifS c thn next, v =>
-    match evalCond emptyTime static v c with
+    match evalCond emptyTime constTime static v c with
     | some true =>
-      match execProg lib emptyTime static date thn v with
-      | .fall v' => execProg lib emptyTime static date next v'
+      match execProg lib emptyTime constTime static date thn v with
+      | .fall v' => execProg lib emptyTime constTime static date next v'
       | r => r
-    | some false => execProg lib emptyTime static date next v
+    | some false => execProg lib emptyTime constTime static date next v
     | none => .stuck
-  | .retErr, v => .ret ErrorParsing v.st
+  | .retErr, v => .ret ErrorParsing v.st v.touched
   | .retFmt, v =>
     match v.val with
-    | some r => .ret r v.st
+    | some r => .ret r v.st v.touched
     | none => .stuck
   | .bad _, _ => .stuck
 
-/-- The closure as a step function (`none`: the program is not one this semantics covers). -/
-def cacheStepOf {L : Type} (p : CProg) (lib : TimeLib L) (emptyTime : Bytes) (static : Bool) (date : Bytes)
-    (st : TimeSt L) : Option (Bytes × TimeSt L) :=
-  match execProg lib emptyTime static date p { st := st } with
-  | .ret v st' => some (v, st')
+/-- The closure as a step function: answer, cells, touches (`none`: the program is not one this semantics covers). -/
+def cacheStepOf {L : Type} (p : CProg) (lib : TimeLib L) (emptyTime : Bytes) (constTime static : Bool) (date : Bytes)
+    (st : TimeSt L) : Option (Bytes × TimeSt L × List Int) :=
+  match execProg lib emptyTime constTime static date p { st := st } with
+  | .ret v st' t => some (v, st', t)
   | _ => none
 
-/-- The closure as read in round 4b (6998c9c). -/
+/-- The closure as it is read now (1dba502). -/
 def cacheClosureExpected : CProg :=
   .op .evalDate <|
   .ifS .strEmpty .retErr <|
   .op .cellAtomic <|
-  .ifS .inStatic (.op .cellStatic .nil) <|
+  .ifS .inStatic (.op .cellStatic <| .ifS .notConstTime (.op (.touch (-1)) .nil) .nil) <|
   .op .load <|
   .ifS .liveEmpty
     (.op .declErr <| .op .detect <| .ifS .errNonNil .retErr <| .ifS .strNeEmptyTime (.op .store .nil) .nil) <|
